@@ -427,3 +427,50 @@ theorem SilentOutcome.counts {script : List ConnScript} {res : Res α × Net} {k
   exact ⟨h.result, c1, c2, c3, c4⟩
 
 end Gd
+
+namespace Gd
+
+/-! ### silent servers over several sockets -/
+
+/-- outcome of a computation that created `nsock` sockets one after the other, found every one of
+them silent and failed with `e` -/
+structure SilentOutcomeN (w : Net) (res : Res α × Net) (e : ErrKind) (nsock k b : Nat) : Prop where
+  result : res.1 = .err e
+  pending : res.2.pending = w.pending.drop nsock
+  faults : res.2.faults = []
+  sends : ∃ added, res.2.log = w.log ++ added ∧ nSends added = k ∧ nBlocked added = b ∧ nRecvOk added = 0 ∧
+    nOpened added = nsock
+
+theorem SilentOutcome.toN {w : Net} {res : Res α × Net} {k b : Nat} (h : SilentOutcome w res k b) :
+    SilentOutcomeN w res .packetReceive 1 k b :=
+  ⟨h.result, by rw [h.pending, List.drop_one], h.faults, h.sends⟩
+
+theorem SilentOutcomeN.counts {script : List ConnScript} {res : Res α × Net} {e : ErrKind} {n k b : Nat}
+    (h : SilentOutcomeN (Net.init script []) res e n k b) :
+    res.1 = .err e ∧ nSends res.2.log = k ∧ nBlocked res.2.log = b ∧ nRecvOk res.2.log = 0 ∧
+      nOpened res.2.log = n := by
+  obtain ⟨added, hl, c1, c2, c3, c4⟩ := h.sends
+  simp only [Net.init, List.nil_append] at hl
+  rw [hl]
+  exact ⟨h.result, c1, c2, c3, c4⟩
+
+/-- one outcome after the other -/
+theorem SilentOutcomeN.append {w : Net} {r1 : Res α × Net} {r2 : Res β × Net} {e1 e2 : ErrKind}
+    {n1 k1 b1 n2 k2 b2 : Nat} (h1 : SilentOutcomeN w r1 e1 n1 k1 b1) (h2 : SilentOutcomeN r1.2 r2 e2 n2 k2 b2) :
+    SilentOutcomeN w r2 e2 (n1 + n2) (k1 + k2) (b1 + b2) := by
+  obtain ⟨a1, hl1, c1, c2, c3, c4⟩ := h1.sends
+  obtain ⟨a2, hl2, d1, d2, d3, d4⟩ := h2.sends
+  refine ⟨h2.result, ?_, h2.faults, a1 ++ a2, by rw [hl2, hl1, List.append_assoc], ?_, ?_, ?_, ?_⟩
+  · rw [h2.pending, h1.pending, List.drop_drop]
+  · rw [nSends_append]; omega
+  · rw [nBlocked_append]; omega
+  · rw [nRecvOk_append]; omega
+  · rw [nOpened_append]; omega
+
+/-- the scripts of the next sockets to be created (their transports in order): each is created and
+its next `n` receives time out -/
+def AllSilent (n : Nat) : List Bool → List ConnScript → Prop
+  | [], _ => True
+  | tcp :: ts, p => PendingSilent tcp n p ∧ AllSilent n ts p.tail
+
+end Gd
